@@ -354,12 +354,12 @@ package atree
 //@ iface ComparableStorable.Equal(other) (r)
 //@   ensures r == ceq(recv, other)
 //@   pure
-//@ func encodeCompactMapValues(enc, cachedKeys, keys, values) (err)  serves C07 C18
+//@ func encodeCompactMapValues(enc, cachedKeys, keys, values) (err)  serves C03 C07 C18
 //@   requires encWF(enc) && len(keys) == len(values) && (forall k :: 0 <= k && k < len(cachedKeys) ==> cachedKeys[k] != nil) &&
 //@        (forall k :: 0 <= k && k < len(keys) ==> keys[k] != nil && values[k] != nil)
-//@   before[C07] Storable.Encode: arg_enc == enc && 0 <= vpos - old(vpos) && vpos - old(vpos) < len(cachedKeys) &&
+//@   before[C03 C07] Storable.Encode: arg_enc == enc && 0 <= vpos - old(vpos) && vpos - old(vpos) < len(cachedKeys) &&
 //@        (exists j :: 0 <= j && j < len(keys) && arg_recv == values[j] && ceq(cachedKeys[vpos - old(vpos)], keys[j]))
-//@   ensures[C07] err == nil ==> vpos - old(vpos) == len(cachedKeys)
+//@   ensures[C03 C07] err == nil ==> vpos - old(vpos) == len(cachedKeys)
 //@   ensures[C18] err != nil ==> categorised(err)
 //@   modifies heap, ghost.wc, ghost.wb, ghost.vpos, ghost.xbytes, alloc
 //@   loop 1: invariant 0 <= i && i <= len(keyIndexes) && len(keyIndexes) == len(keys) && (forall k :: 0 <= k && k < i ==> keyIndexes[k] == k) && vpos == old(vpos)
